@@ -118,10 +118,13 @@ def draw_conformance(ctx, bounds, what):
         if b["why"].startswith("prop:"):
             ctx.violation("bounded draw with bound %d: %s" % (n, b["why"][5:]), dict(kind="draw", event=e))
         elif b["why"].startswith("shape:"):
-            dev.setdefault(n, set()).add(min(max(e.get("used", 1), 2), 12) if ("continuation" in b["why"] or e.get("used", 1) > 1) else 1)
+            d = max(e.get("used", 1), 2) if ("continuation" in b["why"] or e.get("used", 1) > 1) else 1
+            if d <= 20:
+                dev.setdefault(n, set()).add(d)
     biased = []
     for n in sorted(dev)[:2]:
-        for d in sorted(dev[n] | {1})[:4]:
+        ds = sorted(dev[n] | {1})
+        for d in ds[:3] + ds[3:][-1:]:
             if not decide_by_sweep(ctx, n, d, "decides a deviation of the sampler at a bound used by " + what):
                 biased.append(n)
     ctx.cover["draw_conformance_bounds"] = bounds
